@@ -238,6 +238,22 @@ def gen_program(c, nmax=60):
           out.append(("csrw", CSR_XCEL0, rs()))
         else:
           out.append(("csrr", rdst(), CSR_XCEL0))
+      elif r < 0.955 and len(out) + 5 <= n:
+        # hazard pattern: a manager read shortly before an always-taken branch whose shadow starts
+        # with another manager / accelerator read or a load (stalled-and-squashed instruction in D)
+        ra = c.choice(WORK)
+        recent.append(ra)
+        out.append(("csrr", ra, CSR_MNGR2PROC))
+        src.append("dyn")
+        for _ in range(c.choice([0, 0, 0, 1, 2])):
+          out.append(("addi", rdst(), rs(), c.randint(-4, 4)))
+        k = c.randint(1, 2)
+        shadow = [c.choice([("csrr", rdst(), CSR_MNGR2PROC), ("csrr", rdst(), CSR_XCEL0),
+                            ("lw", rdst(), BASE, 4 * c.randrange(DATA_WORDS)),
+                            ("csrw", CSR_PROC2MNGR, rs())])] + straight_simple(k - 1)
+        # branch on the value just read from the manager (taken unless it is 0), or always taken
+        out.append(("bne", ra, 0, 4 * (k + 1)) if c.random() < 0.7 else ("bne", BASE, 0, 4 * (k + 1)))
+        out.extend(shadow)
       elif r < 0.97 and len(out) + 4 <= n:
         k = c.randint(1, 3)
         body = straight_simple(k)
@@ -257,8 +273,12 @@ def gen_program(c, nmax=60):
         out.append(("add", rdst(), rs(), rs()))
       elif r < 0.75:
         out.append(("sw", rs(), BASE, 4 * c.randrange(DATA_WORDS)))
-      elif r < 0.9:
+      elif r < 0.84:
         out.append(("lw", rdst(), BASE, 4 * c.randrange(DATA_WORDS)))
+      elif r < 0.92:
+        # a manager / accelerator read in a branch shadow: must not be executed (and must not
+        # consume a message) when the branch is taken
+        out.append(("csrr", rdst(), CSR_MNGR2PROC if c.random() < 0.7 else CSR_XCEL0))
       else:
         out.append(("csrw", CSR_PROC2MNGR, rs()))
     return out
